@@ -23,7 +23,7 @@ from dask_array._chunk import getitem as chunk_getitem
 from dask_array._expr import ArrayExpr
 from dask_array._core_utils import concatenate3, normalize_chunks
 from dask_array._utils import validate_axis
-from dask_array.io._from_map import _dumps5
+from dask_array.io._from_map import _dumps5_nomemo
 
 
 # ============================================================================
@@ -682,7 +682,7 @@ class Rechunk(ArrayExpr):
         # ``tokenize`` on any pickling failure.
         try:
             non_array = [self.operand(p) for p in self._parameters if p != "array"]
-            return "rechunk-merge-rc1" + hash_buffer_hex(_dumps5((self.array._name, *non_array)))
+            return "rechunk-merge-rc1" + hash_buffer_hex(_dumps5_nomemo((self.array._name, *non_array)))
         except Exception:
             return "rechunk-merge-" + tokenize(*self.operands)
 
